@@ -425,6 +425,9 @@ struct PiecemealReader {
     data: Vec<u8>,
     pos: usize,
     fail_at: Option<usize>,
+    /// (piece size, interrupted first) per read, used round robin.
+    plan: Vec<(usize, bool)>,
+    reads: usize,
 }
 
 impl std::io::Read for PiecemealReader {
@@ -432,12 +435,13 @@ impl std::io::Read for PiecemealReader {
         if self.fail_at.is_some_and(|at| self.pos >= at) {
             return Err(std::io::Error::new(std::io::ErrorKind::Other, "input/output error"));
         }
-        if sim::chance("anchor_file.eintr", 1, 5) {
-            sim::stat("fault.trust_anchor_file_read_interrupted");
+        let (piece, eintr) = self.plan[(self.reads / 2) % self.plan.len()];
+        self.reads += 1;
+        if eintr && self.reads % 2 == 1 {
             return Err(std::io::ErrorKind::Interrupted.into());
         }
         let left = self.fail_at.unwrap_or(self.data.len()).min(self.data.len()) - self.pos;
-        let n = left.min(buf.len()).min(1 + sim::draw("anchor_file.piece", 64) as usize);
+        let n = left.min(buf.len()).min(piece);
         buf[..n].copy_from_slice(&self.data[self.pos..self.pos + n]);
         self.pos += n;
         Ok(n)
@@ -566,8 +570,12 @@ async fn run(_tier: Tier) {
     if sim::chance("cfg.trust_anchor_from_reader", 1, 4) {
         sim::stat("probe.trust_anchors_from_a_reader");
         let text: String = ta_texts.iter().map(|t| format!("{}\n", t)).collect();
-        let fail_at = if sim::chance("anchor_file.read_error", 1, 5) { Some(sim::draw("anchor_file.read_error_at", text.len() as u64 + 1) as usize) } else { None };
-        let reader = PiecemealReader { data: text.into_bytes(), pos: 0, fail_at };
+        // (The text's length depends on the keys - a key tag has three to
+        // five digits - and the keys differ from process to process: the
+        // number of draws must not depend on it.)
+        let fail_at = if sim::chance("anchor_file.read_error", 1, 5) { Some((sim::draw("anchor_file.read_error_at_permille", 1001) as usize * text.len()) / 1000) } else { None };
+        let plan: Vec<(usize, bool)> = (0..8).map(|_| (1 + sim::draw("anchor_file.piece", 64) as usize, sim::chance("anchor_file.eintr", 1, 5))).collect();
+        let reader = PiecemealReader { data: text.into_bytes(), pos: 0, fail_at, plan, reads: 0 };
         match (TrustAnchors::from_reader(reader), fail_at) {
             (Ok(t), None) => {
                 ta = t;
